@@ -9,6 +9,6 @@ ENTRY = {
                 "upgraded golden documents are loaded into home.configuration.",
         "design_ref": "DESIGN.md section 4 C13",
         "note": "Trusted: TLC, abs()/conc()/symbolic-value evaluation of zz_verif_c13_test.go. Not modelled: value-level behaviour inside one step "
-                "(QUIC port defaulting), client-list elements beyond the first. Loader acceptance is a harness check on the undeviated golden documents, not decided by the spec.",
+                "(QUIC port defaulting), client lists longer than three elements. Loader acceptance (real home.parseConfig) is a harness check on the golden documents and on every valid document of the record-list families (2-3 clients of different shapes in every order, filters in every order, users/rewrites/allow-list records), not decided by the spec.",
         "technique": "TLA+ spec enumerated by TLC; exhaustive vector replay into real code (one-shot and split runs) + TLC-evaluated random documents",
     }
